@@ -409,6 +409,13 @@ MODELS = ["jac", "grad", "nograd", "lin_mat", "lin_fun", "pde_poisson", "pde_poi
 # catalogue member maps the cell's domain to the cell's range), "<linear kind>_TT" is (B.T).T of a base B : domain -> range.
 DERIVED_MODELS = ["lin_mat_T", "lin_fun_T"]
 DERIVED_MODELS_THOROUGH = ["lin_mat_TT", "lin_fun_TT"]
+# PDE models with EXPLICIT, coinciding solution and observation grids (two separately constructed, equal arrays): the
+# library then observes the solution itself (no interpolation, no observation map) - together with an identity-like
+# range geometry nothing between the PDE solver's arrays and the caller makes a copy.  The models of MODELS leave both
+# grids unspecified (which the library also treats as coinciding).  The grid acts on the range side only, so these kinds
+# are crossed with every range kind whose function space is 1-D and a covering subset of domain kinds.
+# "pde_heat_be_grid" also names its observation time explicitly (an array holding the final time) instead of 'final'.
+GRID_MODELS = ["pde_poisson_grid", "pde_heat_fe_grid", "pde_heat_be_grid"]
 
 
 def base_kind(name):
@@ -421,6 +428,15 @@ def base_kind(name):
 
 def needs_1d_function_spaces(name):
     return base_kind(name)[0] == "lin_mat"
+
+
+def needs_1d_range(name):
+    """PDE models with explicit grids observe on a 1-D grid: range geometries with a 1-D function space only."""
+    return name in GRID_MODELS
+
+
+def range_1d(rng):
+    return _family(rng) != "2d" or rng == "image2d_vis"
 
 
 def lin_mat_applicable(dom, rng):
@@ -539,6 +555,13 @@ def build_model(name, gd, gr, k):
     h = 1.0 / (M + 1)
     D = refs.fd1_1d(M, "zero")                      # (M+1) x M
     obs_map = None if len(rshape) == 1 else (lambda u: u.reshape(rshape))
+    grids = {}
+    if name in GRID_MODELS:
+        if len(rshape) != 1:
+            raise ValueError("explicit observation grids need a 1-D range function space")
+        # interior nodes of (0, 1); solution grid and observation grid are equal arrays, not one object
+        grids = {"grid_sol": np.array([h * (i + 1) for i in range(M)]), "grid_obs": h * np.arange(1, M + 1)}
+        name = name[:-len("_grid")]
 
     if name.startswith("pde_poisson"):
         Pi = 0.125 * refs.full_matrix(M + 1, nf, k)
@@ -569,7 +592,7 @@ def build_model(name, gd, gr, k):
 
         cls = {"pde_poisson": cuqi.pde.SteadyStateLinearPDE, "pde_poisson_jac": _JacPDE,
                "pde_poisson_vjp": _VjpPDE}[name]
-        pde = cls(PDE_form, observation_map=obs_map)
+        pde = cls(PDE_form, observation_map=obs_map, **grids)
         out.model = cuqi.model.PDEModel(pde, range_geometry=gr.arg, domain_geometry=gd.arg)
         out.has_grad = name != "pde_poisson"
 
@@ -594,7 +617,9 @@ def build_model(name, gd, gr, k):
             w = Sm @ x.reshape(-1)
             return Lap, src, w + 0.25 * w ** 2
 
-        pde = cuqi.pde.TimeDependentLinearPDE(PDE_form, steps, method=method, observation_map=obs_map)
+        if grids and method == "backward_euler":
+            grids["time_obs"] = np.array([dt * (nt - 1)])       # the final time, named explicitly
+        pde = cuqi.pde.TimeDependentLinearPDE(PDE_form, steps, method=method, observation_map=obs_map, **grids)
         out.model = cuqi.model.PDEModel(pde, range_geometry=gr.arg, domain_geometry=gd.arg)
         out.has_grad = False
 
